@@ -6,7 +6,7 @@ From KV Require Import Lib.Str Model.Vpp Gen.UmlSrc Gen.UmlCsSrc Model.Uml Model
                        Model.UmlIncl Gen.UmlInclSrc Proofs.SortedSet Proofs.UmlInclSorted Proofs.UmlInclCover Proofs.UmlInclPins
                        Model.UmlBlob Model.UmlWriter Gen.UmlBlobShipped Proofs.UmlBlobDefs Proofs.UmlBlobStruct Proofs.UmlBlobText
                        Proofs.UmlBlobTop Proofs.UmlBlobRound Proofs.UmlBlobVis Proofs.UmlBlobCompose Proofs.UmlBlobCalib Proofs.UmlBlobPins
-                       Model.UmlDomain Model.UmlSem Gen.UmlSemShipped Proofs.UmlSemExample Proofs.UmlSemCalib Proofs.UmlSemTop Proofs.UmlCsFrom.
+                       Model.UmlDomain Model.UmlSem Gen.UmlSemShipped Proofs.UmlSemExample Proofs.UmlSemCalib Proofs.UmlSemTop Proofs.UmlCsFrom Proofs.UmlInclFrom.
 Import ListNotations.
 Open Scope string_scope.
 
@@ -621,3 +621,22 @@ Theorem C19_realised_cs_from_diagram : forall (D : sdiagram) (d : db) fuel vis (
   /\ In {| en_class := c_name k; en_owner := c_name p; en_owner_pure := true; en_realised := true; en_op := cs_oper o |} l.
 Proof. exact realised_cs_from_diagram. Qed.
 Print Assumptions C19_realised_cs_from_diagram.
+
+(* ... and the includes: idiagram_of D = the raw diagram (qualified type names, modifiers, multiplicities, inheritance and
+   association ends) of the objects read; from ANY project hosting D's rows the header of c includes every class of the diagram
+   it uses by value, and <vector> for a to-many member *)
+Theorem C19_includes_cover_from_diagram : forall (D : sdiagram) (d : db) (fuel : nat) (nsf : bool) (c k : icls) (l : list string),
+  sdiagram_ok D = true -> chosts d (tree_of D) = true ->
+  incl_names_ok (idiagram_of D) = true -> In c (i_classes (idiagram_of D)) -> In k (i_classes (idiagram_of D)) ->
+  In (qname k) (nfd_raw (idiagram_of D) c) ->
+  header_includes fuel nsf (idiagram_of D) c = Some l ->
+  adaptor_incl d (sd_name D) = Some (idiagram_of D) /\ In (spec_include nsf c k) l.
+Proof. exact includes_cover_from_diagram. Qed.
+Print Assumptions C19_includes_cover_from_diagram.
+
+Theorem C19_vector_from_diagram : forall (D : sdiagram) (d : db) (fuel : nat) (nsf : bool) (c : icls) (l : list string),
+  sdiagram_ok D = true -> chosts d (tree_of D) = true ->
+  own_vector (idiagram_of D) c = true -> header_includes fuel nsf (idiagram_of D) c = Some l ->
+  adaptor_incl d (sd_name D) = Some (idiagram_of D) /\ In "#include <vector>" l.
+Proof. exact vector_from_diagram. Qed.
+Print Assumptions C19_vector_from_diagram.
